@@ -126,3 +126,10 @@ VARIANTS += [
       "        self.__instance: Instance | None = given", "silent", "",
       "alias"),
 ]
+
+VARIANTS += [
+    V("base-setup-ignores-encoding", "moptipyapps/binpacking2d/experiment.py",
+      "            .set_encoding(encoding(instance))",
+      "            .set_encoding(ImprovedBottomLeftEncoding1(instance))",
+      "fire", "D12.8", "seed C12-base-setup-ignores-encoding"),
+]
